@@ -326,7 +326,7 @@ Qed.
 Lemma step_inv c s e s' : Inv c s -> fresh_ok s e -> step c s e = Some s' -> Inv c s'.
 Proof.
   intros Hi Hfr Hst. pose proof Hi as [Hc H5 H6]. pose proof Hc as [H1 H2 H3 H4].
-  destruct e as [r|o|o|old new|pid|ci d|ci|ci| |]; cbn in Hst.
+  destruct e as [r|o|o|old new|pid|ci d|ci|ci| | |]; cbn in Hst.
   - (* ESpawn *)
     destruct (ph s) eqn:Hph; try discriminate.
     + (* initial loop *)
@@ -434,6 +434,9 @@ Proof.
        split; auto; cbn;
        (apply (flags_drain _ k (or_introl eq_refl) Hf) || apply (flags_drain _ k (or_intror eq_refl) Hf));
        apply (Hd k Hin)).
+  - (* ERecoverPanic *)
+    destruct (ph s) eqn:Hph; try discriminate. injection Hst as <-. destruct H6 as [Hx Hy]; cbn in Hy.
+    apply inv_teardown; auto. rewrite Hph; reflexivity.
 Qed.
 
 Lemma reach_inv c s : reach c s -> Inv c s.
@@ -464,7 +467,7 @@ Qed.
 
 Lemma fresh_okb_ok s e : fresh_okb s e = true -> fresh_ok s e.
 Proof.
-  destruct e as [[pid| | |]| | | | | | | | |]; cbn; auto.
+  destruct e as [[pid| | |]| | | | | | | | | |]; cbn; auto.
   intros H Hin. apply negb_true_iff in H. rewrite <- not_true_iff_false in H. apply H.
   apply existsb_exists. exists pid. split; auto. apply Z.eqb_refl.
 Qed.
@@ -619,7 +622,7 @@ Lemma step_shape c s e s1 : step c s e = Some s1 ->
   end.
 Proof.
   intros Hst. unfold same_counts.
-  destruct e as [r|o|o|old new|pid|ci d|ci|ci| |]; cbn in Hst.
+  destruct e as [r|o|o|old new|pid|ci d|ci|ci| | |]; cbn in Hst.
   - destruct (ph s) eqn:Hph; try discriminate;
       (destruct r as [pid| | |]; cbn in Hst; injection Hst as <-; cbn; rewrite ?map_length, ?app_length; cbn;
        [|auto|auto|auto]; repeat split; try lia;
@@ -647,6 +650,7 @@ Proof.
   - destruct (ph s) eqn:Hph; try discriminate. injection Hst as <-. cbn. rewrite map_length. auto.
   - destruct (ph s) eqn:Hph; try discriminate; destruct (all_done (kids s)); try discriminate;
       injection Hst as <-; cbn; auto.
+  - destruct (ph s) eqn:Hph; try discriminate. injection Hst as <-. cbn. rewrite map_length. auto.
 Qed.
 
 Lemma sup_sound c tr : forall s s', Inv c s -> fresh_run c s tr -> run c s tr = Some s' ->
@@ -658,7 +662,7 @@ Proof.
   pose proof (step_inv _ _ _ _ Hi Hf1 Hst) as Hi1.
   pose proof (step_shape _ _ _ _ Hst) as Hsh.
   specialize (IH s1 s' Hi1 Hf2 Hrun).
-  destruct e as [r|o|o|old new|pid|ci d|ci|ci| |]; cbn [sup].
+  destruct e as [r|o|o|old new|pid|ci d|ci|ci| | |]; cbn [sup].
   - destruct r as [pid| | |].
     + destruct Hsh as (Hl & Hx & Hr). rewrite Hl, Hx, Hr in IH. rewrite <- IH. f_equal. lia.
     + destruct Hsh as ((Hl & Hx) & Hr). now rewrite Hl, Hx, Hr in IH.
@@ -674,6 +678,7 @@ Proof.
   - destruct Hsh as ((Hl & Hx) & Hp). now rewrite Hl, Hx, Hp in IH.
   - destruct Hsh as (Hn & (Hl & Hx) & Hr). rewrite Hl, Hx, Hr in IH. now rewrite Hn, IH.
   - destruct Hsh as (Hn & (Hl & Hx) & Hr). rewrite Hl, Hx, Hr in IH. now rewrite Hn, IH.
+  - destruct Hsh as (Hn & (Hl & Hx) & Hr). rewrite Hl, Hx, Hr in IH. now rewrite Hn, IH.
 Qed.
 
 Lemma run_counts c tr : forall s s', run c s tr = Some s' -> exited s' = exited s + count_recv tr.
@@ -683,7 +688,7 @@ Proof.
   - destruct (step c s e) as [s1|] eqn:Hst; [|discriminate].
     pose proof (step_shape _ _ _ _ Hst) as Hsh. rewrite (IH _ _ Hrun).
     unfold same_counts in Hsh.
-    destruct e as [[pid| | |]| | | | | | | | |]; cbn [count_recv]; try lia; intuition lia.
+    destruct e as [[pid| | |]| | | | | | | | | |]; cbn [count_recv]; try lia; intuition lia.
 Qed.
 
 Lemma accepted_supervised c tr s : fresh_run c (init c) tr -> run c (init c) tr = Some s ->
@@ -724,7 +729,7 @@ Proof.
   - destruct (step c s e) as [s1|] eqn:Hst; [|discriminate].
     pose proof (step_shape _ _ _ _ Hst) as Hsh. rewrite (IH _ _ Hrun).
     unfold same_counts in Hsh.
-    destruct e as [[pid| | |]| | | | | | | | |]; cbn [count_started]; try lia; intuition lia.
+    destruct e as [[pid| | |]| | | | | | | | | |]; cbn [count_started]; try lia; intuition lia.
 Qed.
 
 (* OnChildSpawn rejecting a replacement (or an initial child): the teardown that follows reaches every
